@@ -26,6 +26,8 @@ class CallGraph:
         for m in program.modules.values():
             self._imports_of(m.name, set())
         self.edges = {}
+        self.self_calls = {}       # qualname -> names of methods called on self / super()
+        self.other_edges = {}      # qualname -> callees reached other than through self
         self.sources = {}          # qualname -> list of (kind, text, node)
         for q, (ci, fn) in self.funcs.items():
             self._scan(q, ci, fn)
@@ -61,6 +63,7 @@ class CallGraph:
 
     def _scan(self, q, ci, fn):
         out, src = set(), []
+        selfnames, other = set(), set()
         mod = fn._module.name
         imp = self.imports.get(mod, {})
         for n in ast.walk(fn):
@@ -87,6 +90,7 @@ class CallGraph:
             if isinstance(f, ast.Attribute):
                 v = f.value
                 if isinstance(v, ast.Name) and v.id == "self" and ci is not None:
+                    selfnames.add(name)
                     for c in self._family(ci.name):
                         r = self.P.view(c).resolve(name)
                         if r is not None:
@@ -101,15 +105,20 @@ class CallGraph:
                     for cand in self.by_method.get(name, []):
                         if self.funcs[cand][0] is not None or txt.startswith("ciw."):
                             out.add(cand)
+                            other.add(cand)
             elif isinstance(f, ast.Name):
                 if name in self.P.classes:
                     init = self.P.view(name).resolve("__init__")
                     if init:
                         out.add("%s.__init__" % init[0].name)
+                        other.add("%s.__init__" % init[0].name)
                 for cand in self.by_method.get(name, []):
                     if self.funcs[cand][0] is None:
                         out.add(cand)
+                        other.add(cand)
         self.edges[q] = out
+        self.self_calls[q] = selfnames
+        self.other_edges[q] = other
         self.sources[q] = src
 
     def _family(self, cname):
@@ -128,6 +137,36 @@ class CallGraph:
             todo += list(self.edges.get(x, ()))
         self._reach[q] = seen
         return seen
+
+    def random_sources_in_view(self, cname, mname):
+        """like random_sources_reached, for the method as the concrete class `cname` runs it: calls on self resolve through cname's own MRO only (an
+        override in a subclass of cname is not what cname executes)"""
+        view = self.P.view(cname)
+        r = view.resolve(mname)
+        if r is None:
+            return None
+        seen, todo = set(), ["%s.%s" % (r[0].name, mname)]
+        while todo:
+            x = todo.pop()
+            if x in seen or x not in self.funcs:
+                continue
+            seen.add(x)
+            ci, fn = self.funcs[x]
+            if ci is not None and ci.name in view.mro:
+                for nm in self.self_calls.get(x, ()):
+                    r2 = view.resolve(nm)
+                    if r2 is not None:
+                        todo.append("%s.%s" % (r2[0].name, nm))
+                todo += list(self.other_edges.get(x, ()))
+                # super() calls: keep the family over-approximation restricted to the view's MRO
+                todo += [e for e in self.edges.get(x, ()) if e.split(".")[0] in view.mro and e not in self.other_edges.get(x, ()) and e.split(".")[-1] not in self.self_calls.get(x, ())]
+            else:
+                todo += list(self.edges.get(x, ()))
+        out = []
+        for x in sorted(seen):
+            for s in self.sources.get(x, []):
+                out.append((x, s))
+        return out, seen
 
     def random_sources_reached(self, q):
         out = []
